@@ -76,3 +76,20 @@ func VerifC13_Create() {
 		vrt.Assert(vrt.OpenFDs() == 0, "C13.life Close closes the descriptor (without flock)")
 	}
 }
+
+// VerifC13_Second: while a default handle is open, a second Open (or Create over it) of the same
+// file does not return: it waits for the lock (in the sequential model: it blocks forever, which
+// ends the path).  Returning - with or without an error - while the first handle is still open
+// is a violation; so is returning a handle that does not hold the lock.
+func VerifC13_Second() {
+	list, _ := ParseArchiveInfoList("1s:2s")
+	path := vrt.NoFile("c13s.wsp")
+	w1, err := Create(path, list, Sum, 0.5)
+	vrt.Assume(err == nil)
+	vrt.Assert(w1.Sync() == nil, "C13.second first session syncs")
+	vrt.Reach("pre")
+	vrt.ExpectBlock()
+	w2, err2 := Open(path)
+	// only reached if the second Open did not wait
+	vrt.Assert(w2 == nil && err2 != nil && false, "C13.second a second Open waits until the first handle is closed")
+}
